@@ -22,8 +22,8 @@ type c15Input struct {
 
 type c15Out struct {
 	Err    string              `json:"err,omitempty"`
-	ByHash map[uint64]string   `json:"byHash"`  // ActiveTargetsByHash: hash -> identity
-	PerJob map[string][]hashID `json:"perJob"`  // ActiveTargets: job -> list
+	ByHash map[uint64]string   `json:"byHash"` // ActiveTargetsByHash: hash -> identity
+	PerJob map[string][]hashID `json:"perJob"` // ActiveTargets: job -> list
 	Drops  map[string]int      `json:"drops"`
 }
 
